@@ -167,9 +167,9 @@ def run_shard(shard):
             def _sample(self, key, condition=None):
                 return jnp.zeros(self.shape)
 
-        for n in ([2, 3, 5, 8, 12] if rep % 2 == 0 else [4, 6, 7, 9]) if stride == 1 else [[2, 3], [5], [8], [12], [4], [6], [7], [9]][shard["shard"] % 8]:
+        for n in ([2, 3, 5, 8, 12, 16, 32] if rep % 2 == 0 else [4, 6, 7, 9, 17, 24]) if stride == 1 else [[2, 3], [5], [8, 16], [12], [4, 24], [6], [7, 17], [9, 32]][shard["shard"] % 8]:
             for nc in range(1, n):
-                if n > 6 and nc not in (1, 2, n // 2, n - 2, n - 1):
+                if n > 6 and nc not in (1, 2, 3, n // 8, n // 2, n - 2, n - 1):
                     continue
                 it = {"loss": "contrastive", "batch": n, "n_contrastive": nc, "rep": rep, "origin": "generated"}
                 k3 = jr.PRNGKey(int(r.integers(0, 2**31 - 1)))
